@@ -514,11 +514,21 @@ func (P *Prover) resolveNeq(fs []Poly, depth int) []Poly {
 			out = append(out, f)
 		}
 	}
-	for _, d := range neqs {
-		if P.elim(d.scale(-1), out, depth) { // d >= 0
-			out = append(out, d.scale(-1).add(constP(1), 1)) // 1 - d <= 0
-		} else if P.elim(d, out, depth) { // d <= 0
-			out = append(out, d.add(constP(1), 1))
+	// to a fixpoint: resolving one disequality may give the sign needed by another
+	done := make([]bool, len(neqs))
+	for changed := true; changed; {
+		changed = false
+		for i, d := range neqs {
+			if done[i] {
+				continue
+			}
+			if P.elim(d.scale(-1), out, depth) { // d >= 0
+				out = append(out, d.scale(-1).add(constP(1), 1)) // 1 - d <= 0
+				done[i], changed = true, true
+			} else if P.elim(d, out, depth) { // d <= 0
+				out = append(out, d.add(constP(1), 1))
+				done[i], changed = true, true
+			}
 		}
 	}
 	return out
@@ -630,11 +640,66 @@ func (P *Prover) ProveWith(goal Poly, blk *ssa.BasicBlock, extra []Poly) bool {
 	return P.prove(goal, blk, extra, nil, P.DProve)
 }
 
-// Unreachable reports whether the facts dominating blk are contradictory (0 <= -1 derivable).
+// Unreachable reports whether the facts dominating blk, together with the assumptions in extra
+// (valid everywhere in the function, e.g. known argument values), are contradictory.
 func (P *Prover) Unreachable(blk *ssa.BasicBlock, extra []Poly) bool {
+	saved := P.global
+	P.global = append(append([]Poly{}, P.global...), extra...)
+	defer func() { P.global = saved }()
 	P.budget = P.Budget
-	return P.prove(constP(1), blk, extra, nil, P.DProve)
+	// a dominating disequality d != 0 is contradicted by proving d == 0 (phi-induction allowed)
+	for _, f := range P.factsAt(blk) {
+		if _, isNeq := f["!="]; !isNeq {
+			continue
+		}
+		d := f.clone()
+		delete(d, "!=")
+		if P.prove(d, blk, nil, nil, P.DProve) && P.prove(d.scale(-1), blk, nil, nil, P.DProve) {
+			return true
+		}
+	}
+	return P.prove(constP(1), blk, nil, nil, P.DProve)
 }
+
+// inconsistent: two single-atom linear facts give that atom an empty range.
+func (P *Prover) inconsistent(facts []Poly) bool {
+	lo := map[string]int64{}
+	hi := map[string]int64{}
+	for _, f := range facts {
+		ms := f.monos()
+		if len(ms) != 1 || strings.Contains(ms[0], "*") || ms[0] == "!=" {
+			continue
+		}
+		a, c := f[ms[0]], f[""]
+		// a*x + c <= 0
+		if a > 0 {
+			b := floorDiv(-c, a)
+			if v, ok := hi[ms[0]]; !ok || b < v {
+				hi[ms[0]] = b
+			}
+		} else {
+			b := ceilDiv(c, -a)
+			if v, ok := lo[ms[0]]; !ok || b > v {
+				lo[ms[0]] = b
+			}
+		}
+	}
+	for m, l := range lo {
+		if h, ok := hi[m]; ok && l > h {
+			return true
+		}
+	}
+	return false
+}
+
+func floorDiv(a, b int64) int64 {
+	q := a / b
+	if (a%b != 0) && ((a < 0) != (b < 0)) {
+		q--
+	}
+	return q
+}
+func ceilDiv(a, b int64) int64 { return -floorDiv(-a, b) }
 
 func (P *Prover) prove(goal Poly, blk *ssa.BasicBlock, extra []Poly, hyps []hyp, depth int) bool {
 	if c, ok := goal.isConst(); ok && c <= 0 {
@@ -643,8 +708,10 @@ func (P *Prover) prove(goal Poly, blk *ssa.BasicBlock, extra []Poly, hyps []hyp,
 	if depth <= 0 {
 		return false
 	}
+	// dominating-edge facts first: building them may create atoms whose type facts must be visible below
+	dom := P.factsAt(blk)
 	facts := append([]Poly{}, P.global...)
-	facts = append(facts, P.factsAt(blk)...)
+	facts = append(facts, dom...)
 	facts = append(facts, extra...)
 	for _, h := range hyps {
 		if h.blk == blk || h.blk.Dominates(blk) {
@@ -652,6 +719,9 @@ func (P *Prover) prove(goal Poly, blk *ssa.BasicBlock, extra []Poly, hyps []hyp,
 		}
 	}
 	facts = P.resolveNeq(facts, 4)
+	if P.inconsistent(facts) {
+		return true // the block (or edge) is infeasible under the known facts: anything holds
+	}
 	facts = P.divFacts(goal, facts, 4, blk, hyps)
 	// type facts of atoms created while building facts
 	facts = append(facts, P.global...)
